@@ -333,7 +333,7 @@ class Gen:
         # return type
         r = sig(toks, pc + 1)
         retname = o.get("ret", "r")
-        if r < b and toks[r].s == "-" and toks[r + 1].s == ">":
+        if r < b and toks[r].s == "-" and toks[r + 1].s == ">" and "native" not in o:
             t0 = sig(toks, r + 2)
             # type ends before `where` at depth 0 or at b
             t1 = b
